@@ -818,6 +818,12 @@ class SecureHomeKitConnection(HomeKitConnection):
                     self._pair_verify_failed_hosts.add(_normalize_host(self.connected_host))
                 self._drop_transport()
                 raise
+            except BaseException:
+                # The secure session could not be established, do not leave the
+                # socket open: accessories only accept a handful of connections
+                # and the next attempt will open a new one.
+                self._drop_transport()
+                raise
 
         # Secure session has been negotiated - switch protocol so all future messages are encrypted
         self.protocol = SecureHomeKitProtocol(
